@@ -289,6 +289,8 @@ def static_info(shape):
                     info['def_header_reads'].setdefault(ctx['defhdr'], set()).add(a[1])
                 if ctx.get('comps') and ctx.get('stmt_targets'):
                     info['stmt_targets_of_comp_reads'][a[1]] = list(ctx['stmt_targets'])
+            elif a[0] == 'callx':
+                E(a[1], sid, ctx)
             elif a[0] == 'w':
                 info['bind_scope'][a[1]] = sid if sid[0] != 'comp' else ctx.get('outer_sid', sid)
                 E(a[2], sid, ctx)
